@@ -9,3 +9,6 @@ CONSTANTS
   Kinds = {"do","loop","forin","fn","pcall","co"}
   Handlers = {"ok","raise","nil","false","nometa"}
   ViewHist = 0
+  ErrKinds = {"str","tbl"}
+  XHandlers = {}
+  Battery = FALSE
